@@ -1,6 +1,14 @@
 import TephraProps.C01
+import TephraProps.C14
+import TephraProps.C10
+import TephraProps.C16
 #print axioms Tephra.Props.C01_context_total
 #print axioms Tephra.Props.C19_total
 #print axioms Tephra.Props.C18_split
 #print axioms Tephra.Props.C18_widen
 #print axioms Tephra.Props.C20_window_defined
+#print axioms Tephra.Props.C01_run_no_panic_partial
+#print axioms Tephra.Props.C01_run_no_panic_bracket_partial
+#print axioms Tephra.Props.C14_partial
+#print axioms Tephra.Props.C10_match_no_panic_no_fuel
+#print axioms Tephra.Props.C16_render_total_report
